@@ -6,8 +6,6 @@ package dprod
 // are validated by TLC against spec/ProdTrace.tla.
 
 import (
-	"sync/atomic"
-	"strconv"
 	"context"
 	"encoding/json"
 	"errors"
@@ -15,7 +13,9 @@ import (
 	"math/rand"
 	"net"
 	"os"
+	"strconv"
 	"sync"
+	"sync/atomic"
 	"testing"
 	"testing/synctest"
 	"time"
@@ -48,16 +48,16 @@ type Scenario struct {
 	Manual   bool  `json:"manual"`
 	// user code that takes (virtual) time: a slow promise callback and a slow partitioner open the windows in which
 	// Flush / Produce / Close can arrive while the client is in the middle of finishing or buffering a record
-	PromiseMs  int    `json:"promiseMs"`
-	SlowPartMs int    `json:"slowPartMs"`
-	CloseEarly bool   `json:"closeEarly"`
-	BadParts   bool   `json:"badParts"` // some produce steps carry BadPart (a custom partitioner is installed)
+	PromiseMs  int  `json:"promiseMs"`
+	SlowPartMs int  `json:"slowPartMs"`
+	CloseEarly bool `json:"closeEarly"`
+	BadParts   bool `json:"badParts"` // some produce steps carry BadPart (a custom partitioner is installed)
 	// Leaderless: records go to partitions by id parity; the "leaderless" fault makes partition 1 of t report LEADER_NOT_AVAILABLE in
 	// metadata while brokers reject produce requests for it without naming a leader
 	Leaderless bool `json:"leaderless,omitempty"`
 	// FirstBatch: both partitions of t live on one broker; after that broker has answered a produce request, the first batch ever
 	// sent for the other partition is answered with a retriable error (nothing appended) while a second batch is right behind it
-	FirstBatch bool `json:"firstBatch,omitempty"`
+	FirstBatch bool   `json:"firstBatch,omitempty"`
 	Steps      []Step `json:"steps"`
 }
 
